@@ -46,7 +46,7 @@ def receiver_calls_with_locks(repo: Repo) -> list[tuple[FuncInfo, ast.Call, Func
                     # question there is another gateway's _receivelock object
                     continue
                 out.append((fi, c, t, here))
-                work.append((t, here))
+                work.append((repo.flat(t), here))
     return out
 
 
@@ -54,7 +54,8 @@ def check_closers_serialised(ctx: Ctx, oid: str) -> None:
     repo = ctx.repo
     with ctx.obligation(oid, "closers-serialised") as ob:
         n = 0
-        for caller, call, callee, held in receiver_calls_with_locks(repo):
+        rcalls = receiver_calls_with_locks(repo)
+        for caller, call, callee, held in rcalls:
             if callee.short not in CLOSERS:
                 continue
             n += 1
@@ -66,12 +67,12 @@ def check_closers_serialised(ctx: Ctx, oid: str) -> None:
         ob.require(n >= 5, f"{n} receiver-thread paths into channel closers (floor 5)")
         # user-thread callers must be the frozen exemptions
         for name in CLOSERS:
-            for caller, call in repo.callsites(f"{GB}.{name}"):
+            for caller, call in repo.callsites_flat(f"{GB}.{name}"):
                 if caller.short in CLOSERS or caller.short.startswith("Message.") or caller.short == "BaseGateway._thread_receiver":
                     continue
+                if caller.qualname in {f.qualname for (f, _c, _t, _h) in rcalls}:
+                    continue  # reached from the receiver thread: covered by the lock check above
                 key = (caller.short, name)
-                if key == ("ChannelFactory._local_receive", "ChannelFactory._local_close"):
-                    continue  # receiver context, covered above
                 ob.site(caller, call, f"user-thread caller of {name}", exemption=EXEMPT.get(key))
                 if key not in EXEMPT:
                     ob.violation(caller, call, f"{caller.short} calls {name} outside the receiver thread and is not one of the reasoned exemptions")
@@ -179,27 +180,33 @@ def check(ctx: Ctx) -> None:
             if not cfg.dominated_by(n.id, ns.id):
                 ob.violation(f_set, n.ast, "items are drained / the callback registered before receive() is disabled (`_items = None`): a concurrent receive() could steal an item")
         # second setcallback refused
-        ok = False
-        for (t, lab) in cfg.guards(ns.id):
-            if t.kind == "test" and unparse(t.ast) == "self._items is None" and lab == "false":
-                tru = [cfg.nodes[m] for (m, l) in cfg.succ[t.id] if l == "true"]
-                ok = bool(tru) and all(isinstance(x.ast, ast.Raise) and unparse(x.ast.exc).startswith("OSError") for x in tru)
+        from ..util import Facts as _F, xtext
+
+        def refused_when_none(cf, fi_, nid):
+            """some dominating test establishes `self._items is not None` and its other arm raises OSError"""
+            for (t, lab) in cf.guards(nid):
+                if t.kind != "test":
+                    continue
+                f = _F(repo, fi_, {}, expand_locals=True)
+                f.assume(t.ast, lab == "true")
+                if f.value_src("self._items is None") is False:
+                    other = [cf.nodes[m] for (m, l) in cf.succ[t.id] if l in ("true", "false") and l != lab]
+                    if other and all(isinstance(x.ast, ast.Raise) and xtext(repo, fi_, x.ast.exc).startswith("OSError") for x in other):
+                        return True
+            return False
+        ok = refused_when_none(cfg, f_set, ns.id)
         ob.site(f_set, ns.ast, "a second setcallback raises OSError", ok=ok)
         if not ok:
             ob.violation(f_set, ns.ast, "a second setcallback is not refused with OSError")
         # the drained queue is the old _items
-        it = [n for n in repo.own_nodes(f_set) if isinstance(n, ast.Assign) and unparse(n.value) == "self._items"]
-        if len(it) != 1 or it[0].lineno > ns.ast.lineno:
+        it = [n for n in cfg.nodes if isinstance(n.ast, ast.Assign) and unparse(n.ast.value) == "self._items" and n.id in cfg.live()]
+        if len(it) != 1 or not cfg.dominated_by(ns.id, it[0].id):
             ob.violation(f_set, ns.ast, "the old queue is not saved before _items is switched to None")
         f_recv = repo.func(f"{GB}.Channel.receive")
         cr = build_cfg(repo, f_recv, Oracle(repo, f_recv, precise=True))
         gets = cfg_nodes_with_call(cr, lambda c: callee_attr(c) == "get")
         ob.require(len(gets) == 1, "receive(): queue get not found")
-        ok = False
-        for (t, lab) in cr.guards(gets[0].id):
-            if t.kind == "test" and unparse(t.ast) in ("itemqueue is None", "self._items is None") and lab == "false":
-                tru = [cr.nodes[m] for (m, l) in cr.succ[t.id] if l == "true"]
-                ok = bool(tru) and all(isinstance(x.ast, ast.Raise) and unparse(x.ast.exc).startswith("OSError") for x in tru)
+        ok = refused_when_none(cr, f_recv, gets[0].id)
         ob.site(f_recv, gets[0].ast, "receive() raises OSError when a callback is installed", ok=ok)
         if not ok:
             ob.violation(f_recv, gets[0].ast, "receive() is not refused with OSError after setcallback")
@@ -280,7 +287,7 @@ def check(ctx: Ctx) -> None:
             if not ok:
                 ob.violation(f_set, em[0], "setcallback can deliver the endmarker and also register the callback (second endmarker later), or delivers an unwanted endmarker")
         # no endmarker delivery elsewhere
-        for fi in repo.funcs.values():
+        for fi in repo.scan_funcs():
             if fi.module.name == GB and fi.short not in ("Channel.setcallback", "ChannelFactory._no_longer_opened"):
                 for c in repo.calls_in(fi):
                     if isinstance(c.func, ast.Name) and c.func.id == "callback" and c.args and "endmarker" in unparse(c.args[0]):
@@ -292,7 +299,7 @@ def check(ctx: Ctx) -> None:
 
     with ctx.obligation("C10.f", "multichannel") as ob:
         fm = repo.func("multi.MultiChannel.make_receive_queue")
-        inner = [f for f in repo.funcs.values() if f.parent is fm]
+        inner = [f for f in repo.scan_funcs() if f.parent is fm]
         ob.require(len(inner) == 1, "per-channel closure not found in make_receive_queue")
         pr = inner[0]
         loop = [n for n in repo.own_nodes(fm) if isinstance(n, ast.For)]
